@@ -199,6 +199,37 @@ let load_ l cap line =
   | LOk (t, rd) -> Printf.sprintf "ok %s %s" (string_of_n rd) (sexp_of_item t)
   | LErr (c, p, rd) -> Printf.sprintf "err %s %s %s" (lerr_s c) (string_of_n p) (string_of_n rd)
 
+let load_spec_ l cap line =
+  let buf = bytes_of_hex line in
+  match load_spec l cap buf with
+  | LFault -> "FAULT"
+  | LOk (t, rd) -> Printf.sprintf "ok %s %s" (string_of_n rd) (sexp_of_item t)
+  | LErr (c, p, rd) -> Printf.sprintf "err %s %s %s" (lerr_s c) (string_of_n p) (string_of_n rd)
+
+(* head_spec as a dec1 line: F n tok | N lo hi | E *)
+let size_max = n_of_string "18446744073709551615"
+let dec1_spec line =
+  let buf = bytes_of_hex line in
+  match head_spec buf with
+  | HTok (t, n) -> Printf.sprintf "F %s 0 %s" (string_of_n n) (string_of_tok t)
+  | HNeed full ->
+      let hi = if N.leb full size_max then full else size_max in
+      Printf.sprintf "N 0 %s..%s -" (string_of_n (N.add (len buf) (n_of_int 1))) (string_of_n hi)
+  | HBad -> "E 0 0 -"
+
+(* the spec's ser line: everything derived from encode_rfc *)
+let ser_spec line =
+  let t = item_of_sexp line in
+  let enc = encode_rfc t in
+  let sz = List.length enc in
+  let b = Buffer.create 256 in
+  Buffer.add_string b (Printf.sprintf "size=%d alloc=%d:%d:%s" sz sz sz (hex_of_bytes enc));
+  for n = 0 to sz + 2 do
+    if n >= sz then Buffer.add_string b (Printf.sprintf " %d:%d:%s" n sz (image enc n))
+    else Buffer.add_string b (Printf.sprintf " %d:0:*" n)
+  done;
+  Buffer.contents b
+
 let ser line =
   let t = item_of_sexp line in
   let sz = ssize t in
@@ -272,6 +303,8 @@ let () =
   let f = match stream with
     | "dec1" -> dec1 | "enc" -> enc
     | "load" -> load_ (arg 2) (arg 3)
+    | "load_spec" -> load_spec_ (arg 2) (arg 3)
+    | "dec1_spec" -> dec1_spec | "ser_spec" -> ser_spec
     | "ser" -> ser | "utf8" -> utf8 | "utf8_spec" -> utf8_spec | "dfa" -> dfa | "mem" -> mem | "frag" -> frag | "toks" -> toks
     | s -> failwith ("unknown stream " ^ s) in
   try
